@@ -1,142 +1,13 @@
 ------------------------------- MODULE Pep440 -------------------------------
 (***************************************************************************)
-(* PEP 440 versions as STRUCTURES, clause semantics, and the translation / *)
-(* rendering code of dep_logic.specifiers (__init__.py _from_pkg_specifier,*)
-(* range.py RangeSpecifier._simplified_form/__str__, union.py              *)
-(* UnionSpecifier._simplified_form/__str__).                               *)
-(*                                                                         *)
-(* A version is [ep, rel, pre, post, dev]: epoch, release segments,        *)
-(* pre (0 none, 1 = a1, 2 = rc1), post (0 none, 1 = .post1),               *)
-(* dev (0 none, 1 = .dev1).  Text (spelling: rc/c/pre, -1/.rev1, upper     *)
-(* case, leading v, zero padding) is a dimension of the REPLAY, not of the *)
-(* meaning: the specification's translation works on the parsed structure, *)
-(* as the code does since the "fix:" commit that replaced the textual      *)
-(* segment arithmetic (DESIGN section 6, item 6).                          *)
-(*                                                                         *)
-(* MEANING    VLess (PEP 440 total order), Sat (clause semantics on final  *)
-(*            candidates).                                                 *)
-(* ALGORITHM  Translate (clause -> ranges), SimplifiedRange / SimplifiedUnion*)
-(*            (range(s) -> shortest clause text), Reparse.                 *)
+(* State machines over Pep440Ops (operators live there so that             *)
+(* MarkerSemantics can reuse the PEP 440 order and clause semantics):      *)
+(*   Clauses  one clause per behaviour, evaluated on every final candidate *)
+(*            by the translation (algorithm) and by PEP 440 (meaning);     *)
+(*   Render   every range / hole over the version universe, rendered by    *)
+(*            the transcribed heuristics and parsed back.                  *)
 (***************************************************************************)
-EXTENDS Naturals, Integers, Sequences, FiniteSets, SequencesExt, TLC
-
-CONSTANTS RelVals, MaxRelLen, Epochs, Pres, Posts, Devs, CandVals, MaxCandLen
-
-RECURSIVE SeqsOfLen(_, _)
-SeqsOfLen(S, n) == IF n = 0 THEN {<<>>} ELSE { Append(s, x) : s \in SeqsOfLen(S, n - 1), x \in S }
-Releases == UNION { SeqsOfLen(RelVals, n) : n \in 1..MaxRelLen }
-Versions == [ep : Epochs, rel : Releases, pre : Pres, post : Posts, dev : Devs]
-Final(r)  == [ep |-> 0, rel |-> r, pre |-> 0, post |-> 0, dev |-> 0]
-Cands == { Final(r) : r \in UNION { SeqsOfLen(CandVals, n) : n \in 1..MaxCandLen } }
-
-\* ----------------------------------------------------------------- MEANING
-M == 5                                              \* pad releases to a common length
-Pad(r, n) == [i \in 1..n |-> IF i <= Len(r) THEN r[i] ELSE 0]
-PreKey(v)  == IF v.pre = 0 THEN (IF v.post = 0 /\ v.dev # 0 THEN 0 ELSE 9) ELSE v.pre
-DevKey(v)  == IF v.dev = 0 THEN 9 ELSE v.dev
-KeySeq(v)  == <<v.ep>> \o Pad(v.rel, M) \o <<PreKey(v), v.post, DevKey(v)>>
-SeqLess(a, b) == \E i \in 1..Len(a) : a[i] < b[i] /\ \A j \in 1..(i - 1) : a[j] = b[j]
-VLess(u, v) == SeqLess(KeySeq(u), KeySeq(v))
-VEq(u, v)   == KeySeq(u) = KeySeq(v)
-
-Clause(op, v) == [op |-> op, v |-> v]               \* op: > >= < <= == != ~= ==* !=*
-PrefixMatch(c, ep, rel) == c.ep = ep /\ SubSeq(Pad(c.rel, M), 1, Len(rel)) = rel
-Sat(cl, c) ==
-  CASE cl.op = ">"   -> VLess(cl.v, c)
-    [] cl.op = ">="  -> ~VLess(c, cl.v)
-    [] cl.op = "<"   -> VLess(c, cl.v)
-    [] cl.op = "<="  -> ~VLess(cl.v, c)
-    [] cl.op = "=="  -> VEq(c, cl.v)
-    [] cl.op = "!="  -> ~VEq(c, cl.v)
-    [] cl.op = "==*" -> PrefixMatch(c, cl.v.ep, cl.v.rel)
-    [] cl.op = "!=*" -> ~PrefixMatch(c, cl.v.ep, cl.v.rel)
-    [] cl.op = "~="  -> ~VLess(c, cl.v) /\ PrefixMatch(c, cl.v.ep, SubSeq(cl.v.rel, 1, Len(cl.v.rel) - 1))
-ValidClause(cl) ==
-  /\ (cl.op \in {"==*", "!=*"} => cl.v.pre = 0 /\ cl.v.post = 0 /\ cl.v.dev = 0)
-  /\ (cl.op = "~=" => Len(cl.v.rel) >= 2)
-
-\* --------------------------------------------------------------- ALGORITHM
-\* a bound is <<>> (None) or <<v>>; a range [lo, hi, li, ui]
-Rg(lo, hi, li, ui) == [lo |-> lo, hi |-> hi, li |-> li, ui |-> ui]
-Stable(ep, rel) == [ep |-> ep, rel |-> rel, pre |-> 0, post |-> 0, dev |-> 0]
-Bump(rel) == [rel EXCEPT ![Len(rel)] = rel[Len(rel)] + 1]
-\* _from_pkg_specifier: one clause -> one range or the two ranges of a union
-Translate(cl) ==
-  LET v == cl.v IN
-  CASE cl.op = ">"   -> <<Rg(<<v>>, <<>>, FALSE, FALSE)>>
-    [] cl.op = ">="  -> <<Rg(<<v>>, <<>>, TRUE, FALSE)>>
-    [] cl.op = "<"   -> <<Rg(<<>>, <<v>>, FALSE, FALSE)>>
-    [] cl.op = "<="  -> <<Rg(<<>>, <<v>>, FALSE, TRUE)>>
-    [] cl.op = "=="  -> <<Rg(<<v>>, <<v>>, TRUE, TRUE)>>
-    [] cl.op = "!="  -> <<Rg(<<>>, <<v>>, FALSE, FALSE), Rg(<<v>>, <<>>, FALSE, FALSE)>>
-    [] cl.op = "==*" -> <<Rg(<<Stable(v.ep, Append(v.rel, 0))>>, <<Stable(v.ep, Append(Bump(v.rel), 0))>>, TRUE, FALSE)>>
-    [] cl.op = "!=*" -> <<Rg(<<>>, <<Stable(v.ep, Append(v.rel, 0))>>, FALSE, FALSE),
-                          Rg(<<Stable(v.ep, Append(Bump(v.rel), 0))>>, <<>>, TRUE, FALSE)>>
-    [] cl.op = "~="  -> <<Rg(<<v>>, <<Stable(v.ep, Append(Bump(SubSeq(v.rel, 1, Len(v.rel) - 1)), 0))>>, TRUE, FALSE)>>
-InRange(r, c) == /\ (r.lo = <<>> \/ VLess(r.lo[1], c) \/ (r.li /\ VEq(r.lo[1], c)))
-                 /\ (r.hi = <<>> \/ VLess(c, r.hi[1]) \/ (r.ui /\ VEq(r.hi[1], c)))
-InRanges(rs, c) == \E i \in 1..Len(rs) : InRange(rs[i], c)
-
-\* ---- rendering.  The text is modelled as what it parses to: a tag plus the clause it spells.
-StableSeq(v, n) == Pad(<<v.ep>> \o v.rel, n)
-FirstDiff(a, b) ==      \* first_different_index: index (0-based) of first difference, len when none
-  IF \E i \in 1..Len(a) : a[i] # b[i] THEN (CHOOSE i \in 1..Len(a) : a[i] # b[i] /\ \A j \in 1..(i-1) : a[j] = b[j]) - 1
-  ELSE Len(a)
-IsPre(v)  == v.pre # 0 \/ v.dev # 0          \* Version.is_prerelease
-IsPost(v) == v.post # 0                       \* Version.is_postrelease
-\* !=X.* shortening refuses post-release bounds and guards the segment index (fix commit 298a9c4)
-HoleRenderGuardsPost == TRUE
-\* ~=X.Y shortening still accepts a post-release upper bound: `>=1.2,<2.0.post1` renders as `~=1.2`.
-\* The repository's own test test_range_str_normalization[value10-~=1.2] pins this rendering, so it is a
-\* recorded finding (known_findings.json), modelled as the code behaves and named here:
-CompatRenderGuardsPost == FALSE
-
-\* RangeSpecifier._simplified_form for a two-sided range (one-sided ranges render as one clause)
-SimplifiedRange(r) ==
-  LET mn == r.lo[1]  mx == r.hi[1]
-      n  == IF Len(mn.rel) > Len(mx.rel) THEN Len(mn.rel) + 1 ELSE Len(mx.rel) + 1
-      a  == StableSeq(mn, n)  b == StableSeq(mx, n)
-      fd == FirstDiff(a, b)
-  IN IF VEq(mn, mx) THEN [k |-> "eq", cl |-> Clause("==", mn)]
-     ELSE IF ~r.li \/ r.ui THEN [k |-> "plain", cl |-> Clause("==", mn)]
-     ELSE IF fd >= n - 1 \/ fd = 0 THEN [k |-> "plain", cl |-> Clause("==", mn)]
-     ELSE IF b[fd + 1] - a[fd + 1] # 1 THEN [k |-> "plain", cl |-> Clause("==", mn)]
-     ELSE IF /\ \A i \in (fd + 2)..n : b[i] = 0
-             /\ ~IsPre(mx) /\ (CompatRenderGuardsPost => ~IsPost(mx))
-             /\ Len(mn.rel) = fd + 1
-          THEN [k |-> "compat", cl |-> Clause("~=", mn)]
-     ELSE [k |-> "plain", cl |-> Clause("==", mn)]
-
-\* does the rendered range parse back to the same range?
-RangeRoundTrips(r) ==
-  IF r.lo = <<>> \/ r.hi = <<>> THEN TRUE
-  ELSE LET s == SimplifiedRange(r) IN
-    CASE s.k = "plain"  -> TRUE                                  \* ">=min,<max": the bounds themselves
-      [] s.k = "eq"     -> r.li /\ r.ui
-      [] s.k = "compat" -> LET t == Translate(s.cl)[1] IN VEq(t.hi[1], r.hi[1]) /\ VEq(t.lo[1], r.lo[1]) /\ r.li /\ ~r.ui
-
-\* UnionSpecifier._simplified_form for the hole shape  (-inf, lo) | (hi, +inf)
-SimplifiedHole(left, right) ==
-  LET lm == left.hi[1]  rm == right.lo[1]
-      n  == IF Len(lm.rel) > Len(rm.rel) THEN Len(lm.rel) + 1 ELSE Len(rm.rel) + 1
-      a  == StableSeq(lm, n)  b == StableSeq(rm, n)
-      fd == FirstDiff(a, b)
-  IN IF VEq(lm, rm) THEN [k |-> "ne", cl |-> Clause("!=", lm)]
-     ELSE IF ~(~left.ui /\ right.li) THEN [k |-> "plain", cl |-> Clause("!=", lm)]
-     ELSE IF IsPre(lm) \/ IsPre(rm) \/ (HoleRenderGuardsPost /\ (IsPost(lm) \/ IsPost(rm))) THEN [k |-> "plain", cl |-> Clause("!=", lm)]
-     ELSE IF fd >= n THEN (IF HoleRenderGuardsPost THEN [k |-> "plain", cl |-> Clause("!=", lm)]
-                           ELSE [k |-> "raises", cl |-> Clause("!=", lm)])          \* right_stable[first_different]: IndexError
-     ELSE IF fd > 0 /\ b[fd + 1] - a[fd + 1] = 1 /\ fd + 2 <= n /\ (\A i \in (fd + 2)..n : a[i] = 0 /\ b[i] = 0)
-          THEN [k |-> "newild", cl |-> Clause("!=*", Stable(lm.ep, SubSeq(lm.rel, 1, fd)))]
-     ELSE [k |-> "plain", cl |-> Clause("!=", lm)]
-HoleRoundTrips(left, right) ==
-  LET s == SimplifiedHole(left, right) IN
-    CASE s.k = "plain"  -> RangeRoundTrips(left) /\ RangeRoundTrips(right)
-      [] s.k = "raises" -> FALSE
-      [] s.k = "ne"     -> ~left.ui /\ ~right.li
-      [] s.k = "newild" -> LET t == Translate(s.cl) IN
-                             /\ Len(s.cl.v.rel) >= 1
-                             /\ VEq(t[1].hi[1], left.hi[1]) /\ VEq(t[2].lo[1], right.lo[1])
+EXTENDS Pep440Ops
 
 \* ----------------------------------------------------------- STATE MACHINES
 VARIABLES cl, lo, hi, fl, phase, obs
